@@ -355,6 +355,29 @@ fn rems(m: &mut M, n: u64) {
     let ks: [f64; 14] = [1.0, 2.0, 3.0, 7.0, 10.0, 1024.0, 1025.0, 4503599627370495.0, 9007199254740992.0, 9007199254740994.0,
                          1180591620717411303424.0, 3458764513820540928.0, 309485009821345068724781056.0, 0.5];
     let mut spi = 0usize;
+    // every small integer divisor with exact small multiples, one-word operands, every pairing (TwoFloat % TwoFloat,
+    // TwoFloat % f64, f64 % TwoFloat, %=) and both Euclidean forms, all sign combinations: "when a and b are
+    // integers below 2^53 all three are exact"
+    for b in 1..=256i64 {
+        for k in [1i64, 2, 3, 7, 10] {
+            for (sa, sb) in [(1.0, 1.0), (-1.0, 1.0), (1.0, -1.0), (-1.0, -1.0)] {
+                if !deal.take() {
+                    continue;
+                }
+                m.group("lattice");
+                let (af, bf) = (sa * (k * b) as f64, sb * b as f64);
+                if !m.load(0, af, 0.0) || !m.load(1, bf, 0.0) {
+                    continue;
+                }
+                spi += 1;
+                m.call("arith", "rem", SP_TT[spi % SP_TT.len()], Some(2), &[A::R(0), A::R(1)]);
+                m.call("arith", "rem", SP_TT[(spi / 6) % SP_TT.len()], Some(2), &[A::R(0), A::F(bf)]);
+                m.call("arith", "rem", crate::gen::SP_FT[spi % 4], Some(2), &[A::F(af), A::R(1)]);
+                m.call("arith", "div_euclid", "inh", Some(3), &[A::R(0), A::R(1)]);
+                m.call("arith", "rem_euclid", "inh", Some(4), &[A::R(0), A::R(1)]);
+            }
+        }
+    }
     for e in [0, -3, 40] {
         for (bhi, blo) in values_at(e) {
             for sb in [1.0, -1.0] {
@@ -404,6 +427,14 @@ fn exp_nodes(m: &mut M, n: u64) {
     let mut xs: Vec<(f64, bool)> = Vec::new();
     for y in -1500..=1420 {
         xs.push((y as f64 / 2.0, true));
+    }
+    // midpoints between neighbouring n/128 nodes (the choice of the node is a rounding tie there), alone and on top
+    // of a few y/2
+    for k in -32..32 {
+        let mid = (2 * k + 1) as f64 / 256.0;
+        for y in [0.0, 0.5, -0.5, 1.0, 7.5, -33.0, 640.0] {
+            xs.push((y + mid, true));
+        }
     }
     for k in -32..=32 {
         xs.push((k as f64 / 128.0, true));
